@@ -179,6 +179,13 @@ func (u *upstream) RoundTrip(req *http.Request) (*http.Response, error) {
 		if req.URL.Path != "/v2/raw" || req.Method != "POST" {
 			u.note("unexpected request %s %s", req.Method, req.URL.Path)
 		}
+		for h := range req.Header {
+			switch h {
+			case "Content-Type", "User-Agent", "Content-Encoding", "Tenant", "Content-Length", "Accept-Encoding":
+			default:
+				u.note("unexpected request header %q", h)
+			}
+		}
 		msg, err := decodeBody(raw, req.Header.Get("Content-Encoding"))
 		if err != nil {
 			u.note("undecodable body: %v", err)
@@ -302,7 +309,8 @@ func buildMap(lx *statsd.VerifLexer, rng *rand.Rand, cfg config, client int, idc
 			tags = append(tags, "tenant:"+tenant)
 		}
 		if rng.Intn(2) == 0 {
-			tags = append(tags, []string{"env:prod", "zone:x", "plain"}[rng.Intn(3)])
+			// "tenantx:9" / "tenant" share a prefix with the dynamic header name but must not select a header
+			tags = append(tags, []string{"env:prod", "zone:x", "plain", "tenantx:9", "tenant"}[rng.Intn(5)])
 		}
 		var line string
 		s := rng.Intn(3)
